@@ -5,7 +5,9 @@
 //                                 pending runNext; perm = order of the watched descriptor NUMBERS (select serves ready
 //                                 descriptors in ascending number); engines 0 = epoll then select, 1 = epoll only, 2 = select only
 //   fd   kind                     a descriptor pair: 0 = pipe, read end watched; 1 = pipe, write end watched; 2 = unix socketpair
-//   ev   fd mask oneshot disabled an initial event (mask 0=R 1=W 2=R|W 3=none; on a watched pipe write end R is dropped)
+//   ev   fd mask oneshot state    state 0 enabled, 1 disabled, 2/3 the same but initialize() is called twice: first with the
+//                                 other mode, then with the requested one ("changed my mind" directly after the first initialize)
+//   (ev, continued)               an initial event (mask 0=R 1=W 2=R|W 3=none; on a watched pipe write end R is dropped)
 //   pass                          starts the script of the next loop pass (ops before the first `pass` belong to pass 0)
 //   intr d                        (after pass/rdy/out ops of a pass) the wait of this pass is INTERRUPTED by a handled signal:
 //                                 if no enabled event has its descriptor ready, the loop really blocks in epoll_wait/select
@@ -23,7 +25,11 @@
 //                                 | 5 replace T: destroy it, then create+enable a new event on the same descriptor (pooled
 //                                 record reuse when T was the last one) | 6 disable all events of F, then close F | 7 read
 //                                 (pipe write end: write) arg bytes on the own descriptor | 8 move self (outside a callback: T)
-//                                 to descriptor F: disable, initialize(F, same mask, same mode), enable  [extension, see NOTES.md]
+//                                 to descriptor F: disable, initialize(F, same mask, mode), enable (in a callback sel&1 flips
+//                                 the mode)  [extension, see NOTES.md] | 9 re-initialise T in place: disable, initialize(same
+//                                 descriptor, same mask, mode'), enable if it was enabled or arg&4; mode' by arg&3: 0 the other
+//                                 mode, 1 the same mode ("same everything"), 2 one-shot, 3 persistent.  The model takes the
+//                                 mode of the LAST successful initialize().
 //                                 T / F are chosen by tk among the CURRENT candidates (sel picks one; no candidate = no-op):
 //                                 0 same descriptor (other event) | 1 another descriptor that is ready in this pass |
 //                                 2 another descriptor that is not ready | 3 any (F: prefers a descriptor without events,
@@ -62,15 +68,23 @@ namespace {
 enum { CFG, FD, EV, PASS, RDY, OUT, CB, INTR, NOPS };
 enum Kind { PIPE_R, PIPE_W, SOCK };
 enum Rdy { R_WRITE, R_DRAIN, R_FILL, R_UNFILL, R_CLOSEPEER, NRDY };
-enum Act { A_DISABLE_SELF, A_ENABLE, A_DISABLE, A_DESTROY, A_CREATE, A_REPLACE, A_CLOSEFD, A_READ, A_REINIT, NACT };
+enum Act { A_DISABLE_SELF, A_ENABLE, A_DISABLE, A_DESTROY, A_CREATE, A_REPLACE, A_CLOSEFD, A_READ, A_REINIT, A_REMODE, NACT };
 enum TK { T_SAMEFD, T_HOT, T_COLD, T_RAW, T_SELF, NTK };
 const int kMaxFds = 5, kMaxInitEv = 8, kMaxEv = 16, kMaxPasses = 12, kMaxStepsPerPass = 12, kMaxCbPerEv = 8;
 const int kR = FdEvent::kReadEvent, kW = FdEvent::kWriteEvent;
 const int kMaskTab[4] = {kR, kW, kR | kW, 0};
-const char *kActName[] = {"disable-self", "enable", "disable", "destroy", "create", "replace", "close-fd", "read", "re-initialize"};
+// Known clean-tree defect (proposed-fixes/04): FdEvent::initialize() never clears the one-shot flag, so an object that
+// was ever initialised as kOneshot stays one-shot when it is re-initialised as kPersist (both back-ends).  While the
+// fix is not in the tree, a re-initialisation that asks for kPersist on such an object asks for kOneshot instead
+// (counted in counters["avoided_oneshot_to_persist_reinit"]).  Set to false once the fix is committed
+// (maintenance: VERIF_C03_NO_AVOID=1 switches the avoidance off for one run).
+static const bool kAvoid_oneshot_to_persist_reinit = false;
+bool avoid_sticky() { static bool off = getenv("VERIF_C03_NO_AVOID") != nullptr; return kAvoid_oneshot_to_persist_reinit && !off; }
+
+const char *kActName[] = {"disable-self", "enable", "disable", "destroy", "create", "replace", "close-fd", "read", "re-initialize", "re-initialize-in-place"};
 
 // ------------------------------------------------------------------------------------------------ definition
-struct DEv { int fdi, mask; bool oneshot, enabled; };
+struct DEv { int fdi, mask; bool oneshot, enabled, twice; };
 struct DAct { int action, tk, sel, arg; };
 struct DStep { bool is_rdy; int fdi, what, n; DAct act; };
 struct DCb { int firing; DAct act; };
@@ -102,7 +116,7 @@ Def parse(const Scenario &s) {
       case EV: {
         if ((int)d.evs.size() >= kMaxInitEv) break;
         DEv e; e.fdi = (int)op.in(0, 0, nf - 1); e.mask = fix_mask(d.kinds[e.fdi], kMaskTab[op.in(1, 0, 3)]);
-        e.oneshot = op.in(2, 0, 1) != 0; e.enabled = op.in(3, 0, 1) == 0;
+        e.oneshot = op.in(2, 0, 1) != 0; e.enabled = (op.in(3, 0, 3) & 1) == 0; e.twice = (op.in(3, 0, 3) & 2) != 0;
         d.evs.push_back(e); break; }
       case PASS: if ((int)d.passes.size() < kMaxPasses) { d.passes.emplace_back(); d.intr.push_back(0); } break;
       case INTR: d.intr.back() = 400 + 400 * (int)op.in(0, 0, 2); d.has_intr = true; break;
@@ -124,7 +138,7 @@ Def parse(const Scenario &s) {
       default: break;
     }
   }
-  if (d.evs.empty()) d.evs.push_back(DEv{0, fix_mask(d.kinds[0], kR), false, true});
+  if (d.evs.empty()) d.evs.push_back(DEv{0, fix_mask(d.kinds[0], kR), false, true, false});
   return d;
 }
 
@@ -133,6 +147,7 @@ struct Rec {   // tombstone + model of one event; shared with its callback
   int idx = 0, fdi = 0, mask = 0; bool oneshot = false;
   bool alive = true, enabled = false, doomed = false;
   int fires = 0, fired_pass = -1;
+  bool ever_oneshot = false;   // some initialize() of this object asked for kOneshot
   FdEvent *ev = nullptr;
 };
 struct FdSt {
@@ -148,6 +163,7 @@ struct Flags {   // shape of the case (both back-ends or'ed)
   bool enable_other = false, rearm_self = false, closefd_in_cb = false, oneshot_fired = false, created_in_cb = false;
   bool hup = false, unwritable = false, deferred_self_delete = false, read_in_cb = false, shared_fd_fired = false;
   bool nt = false, err_ambiguous = false, reinit_in_cb = false;
+  bool remode_to_oneshot = false, remode_to_persist = false, remode_same = false, remode_second_life = false, remode_fresh = false, remode_in_cb = false, init_twice = false;
   bool intr_blocked = false, intr_eintr = false, intr_with_enabled_idle = false, intr_not_blocking = false;
   int callbacks = 0;
 };
@@ -242,7 +258,7 @@ struct Run {
       tm_ok = ::timer_create(CLOCK_MONOTONIC, &sev, &tm) == 0;
       g_wake_wfd = wk_w;
     }
-    for (auto &e : d.evs) new_event(e.fdi, e.mask, e.oneshot, e.enabled);
+    for (auto &e : d.evs) new_event(e.fdi, e.mask, e.oneshot, e.enabled, e.twice);
     return err.empty();
   }
   void arm(int usec) { struct itimerspec its; memset(&its, 0, sizeof its); its.it_value.tv_nsec = (long)usec * 1000; ::timer_settime(tm, 0, &its, nullptr); }
@@ -321,7 +337,17 @@ struct Run {
   bool hot_now(int fdi) const { return fds[fdi].w >= 0 && (fds[fdi].snap & mask_now(fdi)) != 0; }
 
   // ---- events
-  std::shared_ptr<Rec> new_event(int fdi, int mask, bool oneshot, bool enable) {
+  // every initialize() goes through here: the model takes the mode of the last successful call
+  bool do_initialize(Rec &t, int fdi, int mask, bool oneshot) {
+    if (!oneshot && t.ever_oneshot && avoid_sticky()) { oneshot = true; stats().counters["avoided_oneshot_to_persist_reinit"]++; }
+    TRACE("  initialize %s -> descriptor %d mask 0x%x %s", evname(t).c_str(), fdi, (unsigned)mask, oneshot ? "one-shot" : "persistent");
+    if (!t.ev->initialize(fds[fdi].w, (short)mask, oneshot ? tbox::event::Event::Mode::kOneshot : tbox::event::Event::Mode::kPersist)) {
+      fail("initialize() of disabled " + evname(t) + " returned false"); return false;
+    }
+    t.oneshot = oneshot; if (oneshot) t.ever_oneshot = true;
+    return true;
+  }
+  std::shared_ptr<Rec> new_event(int fdi, int mask, bool oneshot, bool enable, bool twice = false) {
     if ((int)evs.size() >= kMaxEv || fds[fdi].w < 0) return nullptr;
     auto r = std::make_shared<Rec>();
     r->idx = (int)evs.size(); r->fdi = fdi; r->mask = mask; r->oneshot = oneshot;
@@ -329,7 +355,10 @@ struct Run {
     evs.push_back(r);
     fds[fdi].nalive++; fds[fdi].passmask |= mask;
     if (!r->ev) { r->alive = false; fail("newFdEvent() returned nullptr"); return nullptr; }
-    if (!r->ev->initialize(fds[fdi].w, (short)mask, oneshot ? tbox::event::Event::Mode::kOneshot : tbox::event::Event::Mode::kPersist)) fail("initialize() of a fresh event returned false");
+    bool first_mode = oneshot;
+    if (twice) { fl.init_twice = true; do_initialize(*r, fdi, mask, !oneshot); first_mode = r->oneshot; }
+    do_initialize(*r, fdi, mask, oneshot);
+    if (twice && r->oneshot != first_mode) { (r->oneshot ? fl.remode_to_oneshot : fl.remode_to_persist) = true; fl.remode_fresh = true; }
     r->ev->setCallback([this, r](short events) { fire(r, events); });
     TRACE("  new %s", evname(*r).c_str());
     if (enable) do_enable(*r);
@@ -407,7 +436,7 @@ struct Run {
     if (!err.empty()) return;
     TRACE(" %s action %s tk=%d sel=%d arg=%d", self ? "callback" : "outside", kActName[a.action], a.tk, a.sel, a.arg);
     // Attempts count, not effects: whether an action finds a target may itself depend on what another callback did before.
-    if (self && a.action != A_DISABLE_SELF && a.action != A_READ && !((a.action == A_ENABLE || a.action == A_DISABLE) && a.tk == T_SELF))
+    if (self && a.action != A_DISABLE_SELF && a.action != A_READ && !((a.action == A_ENABLE || a.action == A_DISABLE || a.action == A_REMODE) && a.tk == T_SELF))
       actors.insert(self->fdi);
     switch (a.action) {
       case A_DISABLE_SELF: if (self) do_disable(*self); break;
@@ -433,7 +462,7 @@ struct Run {
         int f = pick_fd(self, a.tk, a.sel, true); if (f < 0) break;
         bool fresh_record = fds[f].nalive == 0;
         int mask = fix_mask(fds[f].kind, kMaskTab[a.arg & 3]);
-        if (!new_event(f, mask, (a.arg >> 2) & 1, true)) break;
+        if (!new_event(f, mask, (a.arg >> 2) & 1, true, (a.arg >> 3) & 1)) break;
         if (self) { fl.created_in_cb = true; if (f != self->fdi) fds[f].targeted = true; if (fresh_record && freed_this_pass) { fl.realloc_after_free = true; fl.nt = true; } }
         break; }
       case A_REPLACE: {
@@ -468,11 +497,24 @@ struct Run {
         bool was_last = fds[t->fdi].nalive == 1;
         do_disable(*t);
         int mask = fix_mask(fds[f].kind, t->mask);
-        if (!t->ev->initialize(fds[f].w, (short)mask, t->oneshot ? tbox::event::Event::Mode::kOneshot : tbox::event::Event::Mode::kPersist)) { fail("initialize() of disabled " + evname(*t) + " returned false"); break; }
+        if (!do_initialize(*t, f, mask, (self && (a.sel & 1)) ? !t->oneshot : t->oneshot)) break;
         fds[t->fdi].nalive--; if (was_last && in_cb) { freed_this_pass = true; fl.freed_in_cb = true; }
         t->fdi = f; t->mask = mask; fds[f].nalive++; fds[f].passmask |= mask;
         if (self) { fds[f].targeted = true; fl.reinit_in_cb = true; }
         do_enable(*t);
+        break; }
+      case A_REMODE: {
+        // re-initialise in place: same descriptor, same mask, possibly another mode (round 4)
+        auto t = pick_event(self, a.tk, a.sel); if (!t || fds[t->fdi].w < 0) break;
+        if (t.get() != self) touch(self, *t, false, false);
+        bool was_enabled = t->enabled, was_oneshot = t->oneshot, fired_before = t->fires > 0;
+        bool want = (a.arg & 3) == 0 ? !was_oneshot : (a.arg & 3) == 1 ? was_oneshot : (a.arg & 3) == 2;
+        do_disable(*t);
+        if (!do_initialize(*t, t->fdi, t->mask, want)) break;
+        if (t->oneshot != was_oneshot) { (t->oneshot ? fl.remode_to_oneshot : fl.remode_to_persist) = true; (fired_before ? fl.remode_second_life : fl.remode_fresh) = true; }
+        else fl.remode_same = true;
+        if (self) fl.remode_in_cb = true;
+        if (was_enabled || (a.arg & 4)) do_enable(*t);
         break; }
     }
   }
@@ -644,6 +686,13 @@ std::string run(const Scenario &s, CaseInfo &info) {
   info.cls_if(fl.reinit_in_cb, "cb_moves_itself_to_another_descriptor");
   info.cls_if(fl.hup, "peer_closed_hangup");
   info.cls_if(fl.unwritable, "unwritable_descriptor");
+  info.cls_if(fl.remode_to_oneshot, "reinit_same_fd_mask_persist_to_oneshot");
+  info.cls_if(fl.remode_to_persist, "reinit_same_fd_mask_oneshot_to_persist");
+  info.cls_if(fl.remode_same, "reinit_same_everything");
+  info.cls_if(fl.remode_second_life, "reinit_mode_change_after_event_fired");
+  info.cls_if(fl.remode_fresh, "reinit_mode_change_before_first_callback");
+  info.cls_if(fl.init_twice, "initialize_twice_at_creation");
+  info.cls_if(fl.remode_in_cb, "reinit_in_place_inside_callback");
   info.cls_if(fl.intr_blocked, "pass_blocks_in_wait_until_signal");
   info.cls_if(fl.intr_eintr, "wait_interrupted_by_signal_EINTR");
   info.cls_if(fl.intr_eintr && fl.intr_with_enabled_idle, "EINTR_with_enabled_events_on_not_ready_descriptors");
@@ -718,24 +767,26 @@ SubDef def = [] {
       for (int i = 0; i < ne; ++i) {
         int64_t f = i < nf && rng(0, 2) ? i : rng(0, nf - 1);   // most descriptors get an event, several share one
         evfd[i] = (int)f;
-        mk(EV, {f, pick({{6, 0}, {2, 1}, {3, 2}, {0 + (rng(0, 15) == 0), 3}}), pick({{7, 0}, {3, 1}}), pick({{9, 0}, {1, 1}})});
+        mk(EV, {f, pick({{6, 0}, {2, 1}, {3, 2}, {0 + (rng(0, 15) == 0), 3}}), pick({{7, 0}, {3, 1}}), pick({{16, 0}, {2, 1}, {2, 2}, {0 + (rng(0, 3) == 0), 3}})});
       }
       int actor_fd = (int)rng(0, nf - 1);   // independent family: only this descriptor's callbacks act beyond their own event
       auto action = [&](bool local_only) -> std::vector<int64_t> {
         if (independent) {
-          switch (local_only ? pick({{3, 0}, {3, 2}, {4, 6}}) : pick({{2, 0}, {4, 1}, {2, 2}, {2, 3}, {3, 4}, {2, 5}, {3, 6}})) {
+          switch (local_only ? pick({{3, 0}, {3, 2}, {4, 6}, {3, 7}}) : pick({{2, 0}, {4, 1}, {2, 2}, {2, 3}, {3, 4}, {2, 5}, {3, 6}, {2, 7}, {1, 8}})) {
             case 0: return {A_DISABLE_SELF, 0, 0, 0};
             case 1: return {pick({{2, A_ENABLE}, {3, A_DISABLE}, {3, A_DESTROY}, {2, A_REPLACE}}), T_COLD, rng(0, 7), 0};
             case 2: return {A_ENABLE, T_SELF, 0, 0};
             case 3: return {A_DESTROY, T_SELF, 0, 0};
-            case 4: return {A_CREATE, T_COLD, rng(0, 7), rng(0, 7)};
+            case 7: return {A_REMODE, T_SELF, 0, rng(0, 7)};
+            case 8: return {A_REMODE, T_COLD, rng(0, 7), rng(0, 7)};
+            case 4: return {A_CREATE, T_COLD, rng(0, 7), rng(0, 15)};
             case 5: return {A_CLOSEFD, T_COLD, rng(0, 7), 0};
             default: return {A_READ, 0, 0, pick({{3, 0}, {2, -1}}) < 0 ? rng(0, 2999) : rng(0, 8)};
           }
         }
-        int64_t a = pick({{2, A_DISABLE_SELF}, {3, A_ENABLE}, {5, A_DISABLE}, {5, A_DESTROY}, {2, A_CREATE}, {4, A_REPLACE}, {1, A_CLOSEFD}, {3, A_READ}, {1, A_REINIT}});
-        int64_t tk = pick({{3, T_SAMEFD}, {6, T_HOT}, {2, T_COLD}, {2, T_RAW}, {1, T_SELF}});
-        return {a, tk, rng(0, 15), a == A_READ ? (rng(0, 1) ? rng(0, 8) : rng(0, 2999)) : rng(0, 7)};
+        int64_t a = pick({{2, A_DISABLE_SELF}, {3, A_ENABLE}, {5, A_DISABLE}, {5, A_DESTROY}, {2, A_CREATE}, {4, A_REPLACE}, {1, A_CLOSEFD}, {3, A_READ}, {1, A_REINIT}, {3, A_REMODE}});
+        int64_t tk = a == A_REMODE ? pick({{2, T_SAMEFD}, {2, T_HOT}, {1, T_COLD}, {1, T_RAW}, {4, T_SELF}}) : pick({{3, T_SAMEFD}, {6, T_HOT}, {2, T_COLD}, {2, T_RAW}, {1, T_SELF}});
+        return {a, tk, rng(0, 15), a == A_READ ? (rng(0, 1) ? rng(0, 8) : rng(0, 2999)) : rng(0, 15)};
       };
       int ncb = (int)rng(ne, 3 * ne);
       for (int i = 0; i < ncb; ++i) {
@@ -763,7 +814,7 @@ SubDef def = [] {
           if (what >= 0) mk(RDY, {i, what, pick({{3, 1}, {3, -1}}) < 0 ? rng(1, 3000) : rng(1, 10)});
         }
         if (p && rng(0, 3) == 0) {
-          int64_t a = pick({{4, A_ENABLE}, {2, A_DISABLE}, {1, A_DESTROY}, {2, A_CREATE}, {1, A_REPLACE}, {1, A_CLOSEFD}});
+          int64_t a = pick({{4, A_ENABLE}, {2, A_DISABLE}, {1, A_DESTROY}, {2, A_CREATE}, {1, A_REPLACE}, {1, A_CLOSEFD}, {3, A_REMODE}});
           mk(OUT, {a, T_RAW, rng(0, 15), rng(0, 7)});
         }
       }
